@@ -382,7 +382,11 @@ func (g *declGen) leaf(fs []string, intField string) D {
 				x = f + " != 'Q'"
 				break
 			}
-			x = g.t.Pick("decl.boolxpath.pathological.which", "("+f+" != 'Q')[1]", "("+f+" != 'Q') | ("+f+" = 'Q')")
+			x = g.t.Pick("decl.boolxpath.pathological.which", "("+f+" != 'Q')[1]", "("+f+" != 'Q') | ("+f+" = 'Q')",
+				// ... and the same handed to a function that consumes a node-set, with comparisons that hold
+				// on any node, also one without children (what is asked about an xpath before it is used
+				// is asked on such nodes)
+				"count((1=1)[1]) > 0", "count(("+f+" != 'Q')[1]) >= 0", "sum((. = .)[1]) >= 0", "boolean((1=1) | (2=2))", "count((. = .) | (1=1)) > 0")
 		}
 		return cf("coalesce", D{"xpath": x, "custom_func": D{"name": "concat", "args": []interface{}{D{"const": "yes"}}}}, D{"const": "no"})
 	case 15:
